@@ -1,1 +1,116 @@
-// harnesses for arc (included into loom under cfg(loom_verif))
+// crate::rt::arc::verif -- C11 (reference count, ordering, dependence
+// classes), C01-O4 (dependence table of Arc operations), C10 (count).
+#![allow(dead_code, unused_imports)]
+
+use super::*;
+use crate::rt::verif::{le, max_raw, vharness, vv, vv_raw};
+#[cfg(not(kani))]
+use crate::rt::verif::kani_shim as kani;
+use crate::rt::MAX_THREADS;
+
+type Raw = [u16; MAX_THREADS];
+
+fn act(c: u8) -> Action {
+    match c {
+        0 => Action::RefInc,
+        1 => Action::RefDec,
+        _ => Action::Inspect,
+    }
+}
+
+fn any_access(max_path: usize) -> Option<Access> {
+    let present: bool = kani::any();
+    if present {
+        let p: usize = kani::any();
+        kani::assume(p < max_path);
+        let v: Raw = kani::any();
+        Some(Access::new(p, &vv(v)))
+    } else {
+        None
+    }
+}
+
+fn same(a: Option<&Access>, p: Option<(usize, Raw)>) -> bool {
+    match (a, p) {
+        (None, None) => true,
+        (Some(a), Some((pid, v))) => a.path_id() == pid && vv_raw(a.version()) == v,
+        _ => false,
+    }
+}
+
+fn view(a: Option<&Access>) -> Option<(usize, Raw)> {
+    a.map(|a| (a.path_id(), vv_raw(a.version())))
+}
+
+/// Two Arc operations are dependent iff their results can depend on their
+/// order: an inspection (strong_count, get_mut, try_unwrap) against any change
+/// of the count, and two decrements against each other (who drops the value).
+fn ref_dependent(a: u8, b: u8) -> bool {
+    match (a, b) {
+        (2, 0) | (0, 2) => true, // inspect / clone
+        (2, 1) | (1, 2) => true, // inspect / drop
+        (1, 1) => true,          // drop / drop
+        _ => false,
+    }
+}
+
+vharness! {
+    /// @prop C11,C01 @tier quick @mode full @funcs arc::State::last_dependent_access,arc::State::set_last_access,Access::set_or_create @bounds all 3x3 pairs of Arc actions, arbitrary earlier access records (path ids below the new one), all clock values
+    /// dependence table of Arc operations: after recording an access `a`, the last dependent access reported for a following `b` is that access iff a and b do not commute (inspect/clone, inspect/drop, drop/drop); otherwise the answer is what it was before.
+    fn arc_dependence_table() {
+        let p: usize = kani::any();
+        kani::assume(p >= 1 && p < 1000);
+        let last_mod: u8 = kani::any();
+        kani::assume(last_mod <= 2);
+        let mut st = State {
+            ref_cnt: 2,
+            allocated: Location::disabled(),
+            synchronize: Synchronize::new(),
+            last_ref_inc: any_access(p),
+            last_ref_dec: any_access(p),
+            last_ref_inspect: any_access(p),
+            last_ref_modification: match last_mod {
+                0 => Some(RefModify::RefInc),
+                1 => Some(RefModify::RefDec),
+                _ => None,
+            },
+        };
+        // bookkeeping invariant: the "last modification" tag names a recorded access
+        if last_mod == 0 {
+            kani::assume(st.last_ref_inc.is_some());
+        }
+        if last_mod == 1 {
+            kani::assume(st.last_ref_dec.is_some());
+        }
+        let a: u8 = kani::any();
+        let b: u8 = kani::any();
+        kani::assume(a <= 2 && b <= 2);
+        let v: Raw = kani::any();
+        let before = view(st.last_dependent_access(act(b)));
+        st.set_last_access(act(a), p, &vv(v));
+        let after = st.last_dependent_access(act(b));
+        if ref_dependent(a, b) {
+            assert!(same(after, Some((p, v))));
+        } else {
+            assert!(same(after, before));
+        }
+        kani::cover!(a == 2 && b == 1, "inspection followed by a drop");
+        kani::cover!(a == 0 && b == 1 && before.is_some(), "clone followed by a drop: independent, older drop still reported");
+    }
+}
+
+pub(crate) fn mk(ref_cnt: usize) -> State {
+    State {
+        ref_cnt,
+        allocated: Location::disabled(),
+        synchronize: Synchronize::new(),
+        last_ref_inc: None,
+        last_ref_dec: None,
+        last_ref_inspect: None,
+        last_ref_modification: None,
+    }
+}
+
+pub(crate) fn ref_cnt(s: &State) -> usize {
+    s.ref_cnt
+}
